@@ -26,6 +26,7 @@ def genEnv : Env where
   isEmoji := tableEmoji
   isSpace := tableSpace
   lower := tableLower
+  useMatchOffset := true
 
 def fastTables : Tables where
   digit c := if c < 128 then asciiTables.digit c else RTV.Gen.reTables.digit c
@@ -47,5 +48,12 @@ def fastEnv : Env where
   isEmoji := fastEmoji
   isSpace := fastSpace
   lower := RTV.Preprocess.lowerWith fastLowerC
+  useMatchOffset := true
 
+end RTV.Choice
+
+namespace RTV.Choice
+/-- the code before the `first-occurrence-span` fix -/
+def genEnvPreFix : Env := { genEnv with useMatchOffset := false }
+def fastEnvPreFix : Env := { fastEnv with useMatchOffset := false }
 end RTV.Choice
